@@ -361,6 +361,7 @@ func (r *Run) Exec() (stuck []string, err error) {
 	groupCtx := map[string]*call{}
 	var order []int
 	var spans []trace.Span
+	upstream := map[int]trace.Span{}
 	for _, spec := range sc.Reqs {
 		gk := fmt.Sprintf("%d/%d", spec.Caller, spec.CtxGroup)
 		c := &call{spec: spec}
@@ -372,6 +373,16 @@ func (r *Run) Exec() (stuck []string, err error) {
 				base = client.NewContext(base, client.Info{Metadata: client.NewMetadata(spec.Meta)})
 			}
 			if sc.Tracing {
+				if spec.TraceGroup > 0 {
+					// sibling spans of one upstream request: distinct contexts and spans, same trace id
+					up, ok := upstream[spec.TraceGroup]
+					if !ok {
+						_, up = tracer.Start(context.Background(), fmt.Sprintf("upstream/%d", spec.TraceGroup))
+						upstream[spec.TraceGroup] = up
+						spans = append(spans, up)
+					}
+					base = trace.ContextWithSpan(base, up)
+				}
 				base, c.span = tracer.Start(base, "caller/"+spec.ID())
 				spans = append(spans, c.span)
 			}
